@@ -35,18 +35,20 @@ CHECKS = {
     "C07": (MC, "range, symmetry and identity obligations proved per path; the non-linear SPIKE bound S<=1 only for the sizes "
             "the solver decides (undecided = inconclusive, never pass)", "DESIGN.md 6/C07"),
     "C08": (MC, "metamorphic relations (shift by a symbolic real, dyadic/integer scaling, reversal) proved between two runs "
-            "that share their symbolic inputs", "DESIGN.md 6/C08"),
+            "that share their symbolic inputs, incl. MRTS='auto' and re-evaluation of the same objects moved in place", "DESIGN.md 6/C08"),
     "C09": (MC, "add/mul_scalar/copy histories on symbolic piecewise functions proved to be the pointwise linear combination on "
-            "the merged support, incl. aliasing and operand immutability; py and .pyx add routines", "DESIGN.md 6/C09"),
+            "the merged support, incl. aliasing and operand immutability; py and .pyx add routines; integer-typed receivers through "
+            "float replays of the solver's path models", "DESIGN.md 6/C09"),
     "C10": (MC, "integral/avrg/evaluation/plottable data of symbolic piecewise functions proved exact for every position of "
-            "symbolic interval ends and times relative to the breakpoints", "DESIGN.md 6/C10"),
+            "symbolic interval ends and times relative to the breakpoints, also along query/modify/query sequences on one object", "DESIGN.md 6/C10"),
     "C11": (MC, "discrete-profile add, open-interval integration, ratio convention and smoothing window proved against "
             "dictionary-merge / unit-contribution oracles", "DESIGN.md 6/C11"),
     "C12": ("translation_validation", "each of the 15 duplicated backend routines: the Python fallback and the de-cythonized "
             ".pyx source are run on the same symbolic arguments and their outputs proved equal path by path; single-pass "
             "distances against the average of the corresponding profile", "DESIGN.md 6/C12, 3"),
     "C13": (MC, "reconcile_spike_trains proved against its contract on unordered/repeated symbolic spike times and different "
-            "edges; every public entry point proved insensitive to order/repetition and non-mutating", "DESIGN.md 6/C13"),
+            "edges; every public entry point proved insensitive to order/repetition and non-mutating, also across sequences of calls "
+            "on the same objects", "DESIGN.md 6/C13"),
     "C14": (MC, "all call forms and EVERY index list (size>=2, any order) of a 4-train list proved equivalent as expressions in "
             "per-pair kernel symbols (kernels stubbed), keywords proved to reach the kernel; plus real kernels on 3 trains",
             "DESIGN.md 6/C14"),
